@@ -33,8 +33,14 @@ TIERS = {
     "C05": {"quick": (128, 10, 16), "thorough": (5000, 24, 16)},
     "C13": {"quick": (128, 10, 16), "thorough": (5000, 24, 16)},
     "C18": {"quick": (128, 10, 16), "thorough": (5000, 24, 16)},
+    "C19": {"quick": (64, 8, 16), "thorough": (1500, 20, 16)},
+    "C07": {"quick": (64, 8, 16), "thorough": (2000, 20, 16)},
+    "C08": {"quick": (96, 10, 16), "thorough": (4000, 24, 16)},
 }
-LEVEL = {"C01": "exploration", "C16": "exploration", "C14": "fault_enumeration", "C15": "fault_enumeration", "C05": "exploration", "C13": "exploration", "C18": "exploration"}
+# C19 additionally re-executes its first CROSS_PROCESS runs in a second set of interpreters started with other
+# PYTHONHASHSEED values and compares the shipped final values (the "different processes" clause)
+CROSS_PROCESS = {"quick": 64, "thorough": 320}
+LEVEL = {"C01": "exploration", "C16": "exploration", "C14": "fault_enumeration", "C15": "fault_enumeration", "C05": "exploration", "C13": "exploration", "C18": "exploration", "C19": "exploration", "C07": "exploration", "C08": "exploration"}
 WORKER_TIMEOUT = {"quick": 900, "thorough": 4 * 3600}
 
 
@@ -65,6 +71,8 @@ def finding_matches(f, v, replay):
     if "where_subset_of" in m and not set(v["where"]) <= set(m["where_subset_of"]):
         return False
     if "where_any" in m and not (set(v["where"]) & set(m["where_any"])):
+        return False
+    if "where_subset_of_labels" in m and not set(v["where"]) <= set(m["where_subset_of_labels"]):
         return False
     if "where_prefixes" in m and not all(any(w.startswith(p) for p in m["where_prefixes"]) for w in v["where"]):
         return False
@@ -145,7 +153,7 @@ def minimise_and_confirm(prop, cand, tag, budget):
     return None, {"reproduced": False, "fresh_replay": res.get("ended"), "err": res.get("harness_error")}
 
 
-def spawn_workers(prop, seed, runs, nops, workers, tier, opts=None, digests=False, base=0):
+def spawn_workers(prop, seed, runs, nops, workers, tier, opts=None, digests=False, base=0, group="hashseed"):
     os.makedirs(SCRATCH, exist_ok=True)
     workers = max(1, min(workers, runs))
     per = (runs + workers - 1) // workers
@@ -154,8 +162,8 @@ def spawn_workers(prop, seed, runs, nops, workers, tier, opts=None, digests=Fals
         lo, hi = base + w * per, base + min(runs, (w + 1) * per)
         if lo >= hi:
             continue
-        hs = h64(seed, prop, "hashseed", w) % (2 ** 32)
-        out = os.path.join(SCRATCH, f"w-{prop}-{os.getpid()}-{w}.jsonl")
+        hs = h64(seed, prop, group, w) % (2 ** 32)
+        out = os.path.join(SCRATCH, f"w-{prop}-{group}-{os.getpid()}-{w}.jsonl")
         cmd = [PY, "-m", "efsim.worker", "--property", prop, "--seed", str(seed), "--indices", f"{lo}:{hi}",
                "--nops", str(nops), "--out", out, "--opts", json.dumps(opts or {}),
                "--hard-timeout", str(WORKER_TIMEOUT[tier])]
@@ -195,12 +203,62 @@ def collect(procs, tier):
     return results, problems
 
 
+def cross_process_compare(results_a, results_b):
+    """C19, 'in different processes': same runs executed under other hash seeds must ship the same final values."""
+    from efsim import compare as C
+    from efsim.monitors_light import from_jsonable
+    by_index = {r["index"]: r for r in results_a}
+    out = {"compared_runs": 0, "compared_values": 0, "excused_boundary": 0, "mismatches": []}
+    for rb in results_b:
+        ra = by_index.get(rb["index"])
+        if ra is None or ra["ended"] != "complete" or rb["ended"] != "complete":
+            if ra is not None and ra["ended"] != rb["ended"] and "violation" not in (ra["ended"], rb["ended"]):
+                out["mismatches"].append({"index": rb["index"], "what": f"run ended '{ra['ended']}' under hash seed "
+                                          f"{ra['hashseed']} and '{rb['ended']}' under {rb['hashseed']}"})
+            continue
+        fa, fb = ra["extra"].get("final_values"), rb["extra"].get("final_values")
+        if fa is None or fb is None:
+            continue
+        out["compared_runs"] += 1
+        if ra["extra"].get("near_integer") or rb["extra"].get("near_integer"):
+            out["excused_boundary"] += 1
+            continue
+        bad = []
+        for key in sorted(set(fa) | set(fb)):
+            if key not in fa or key not in fb:
+                bad.append(f"{key}: missing on one side")
+                continue
+            atol = 1.01e-4 if key.endswith("sys.total_footprint") or key == "sys.total_footprint" else 0.0
+            ok, why = C.phys_equal(from_jsonable(fa[key]), from_jsonable(fb[key]), atol=atol)
+            out["compared_values"] += 1
+            if not ok:
+                bad.append(f"{key}: {why}")
+        if bad:
+            out["mismatches"].append({"index": rb["index"], "hashseeds": [ra["hashseed"], rb["hashseed"]],
+                                      "what": "; ".join(bad[:6])})
+    return out
+
+
 def check(prop, tier, seed, runs=None, nops=None, workers=None, opts=None):
     t0 = time.time()
     R, N, W = TIERS[prop][tier]
     R, N, W = runs or R, nops or N, workers or W
+    findings = load_findings(prop)
+    opts = dict(opts or {})
+    # an open finding may name things the monitor has to step over in order to go on exploring (it is still
+    # reported as KNOWN-FINDING, from its witness, which is replayed without this tolerance)
+    tol = sorted({lab for f in findings if f.get("status") == "open" for lab in f.get("match", {}).get("tolerate_leaf_labels", [])})
+    if tol:
+        opts["tolerated_leaf_labels"] = tol
     procs = spawn_workers(prop, seed, R, N, W, tier, opts)
     results, problems = collect(procs, tier)
+    cross = None
+    if prop == "C19":
+        n_cross = min(R, CROSS_PROCESS[tier])
+        procs_b = spawn_workers(prop, seed, n_cross, N, W, tier, opts, group="hashseed-B")
+        results_b, problems_b = collect(procs_b, tier)
+        problems += problems_b
+        cross = cross_process_compare(results, results_b)
     findings = load_findings(prop)
     stats = Counter()
     ended = Counter()
@@ -269,6 +327,14 @@ def check(prop, tier, seed, runs=None, nops=None, workers=None, opts=None):
         else:
             known_lines.append(f"NOTE: property={prop} known finding {f['id']} no longer reproduces from its witness "
                                f"({res.get('ended')})")
+    if cross is not None:
+        for mm in cross["mismatches"][:3]:
+            os.makedirs(REPLAYS, exist_ok=True)
+            path = os.path.join(REPLAYS, f"{prop}-s{seed}-r{mm['index']}-crossprocess.json")
+            json.dump({"property": prop, "kind": "cross_process", "seed": seed, "index": mm["index"], "nops": N,
+                       "hashseeds": mm.get("hashseeds"), "detail": mm["what"]}, open(path, "w"), indent=1)
+            reported.append((path, {"oracle": "processes_differ", "where": ["final values"], "op_kind": None,
+                                    "detail": mm["what"]}))
     # fixed findings suppress nothing: their witnesses are replayed as regression histories
     from concurrent.futures import ThreadPoolExecutor
     fixed = [f for f in findings if f.get("status") == "fixed" and f.get("witness")]
@@ -305,6 +371,7 @@ def check(prop, tier, seed, runs=None, nops=None, workers=None, opts=None):
                                if not k.startswith(("op:", "status:", "fault:")) and k != "ops"},
             "violation_classes_unknown": n_unknown_classes,
             "known_finding_hits": dict(known_hits),
+            "cross_process": ({k_: v_ for k_, v_ in cross.items() if k_ != "mismatches"} if cross else None),
             "fixed_finding_witnesses_replayed": regressions_replayed,
             "simulated_time": "n/a - the system under test reads no clock",
             "components_real": "all of efootprint (imported from the /repo working tree), pint, pandas, boaviztapi, ecologits",
